@@ -17,7 +17,10 @@ from selib.build import AnalysisBroken
 BASE_ARG = {"strtol": 2, "strtoll": 2, "strtoul": 2, "strtoull": 2,
             "strtoimax": 2, "strtoumax": 2, "stoi": 2, "stol": 2, "stoll": 2,
             "stoul": 2, "stoull": 2, "mpz_set_str": 2, "mpz_init_set_str": 2,
-            "fmpz_set_str": 2, "mpq_set_str": 2}
+            "fmpz_set_str": 2, "mpq_set_str": 2,
+            # gmp.h defines the mpz_* names as macros for these
+            "__gmpz_set_str": 2, "__gmpz_init_set_str": 2,
+            "__gmpq_set_str": 2, "__gmpf_set_str": 2}
 CTOR_BASE = {"SymEngine::mpz_wrapper": 1, "SymEngine::mpq_wrapper": 1,
              "__gmp_expr<__mpz_struct[1], __mpz_struct[1]>": 1}
 
@@ -90,48 +93,16 @@ def run(loader, R, tier):
     R.rule("R17.2", "function-table key bound to the conventionally named "
                     "library function")
     R.rule("R17.3", "constant-table key bound to the conventional constant")
+    R.rule("R17.4", "a strtol result is used only where errno != ERANGE "
+                    "holds, with errno cleared before the call")
     R.trusted += ["alias relation arcX->aX, ln->log, Equality->Eq ..., "
                   "And->logical_and ... (the conventional naming, ~15 "
                   "lines)"]
     R.assumptions += ["the generated tokenizer hands parse_numeric exactly "
                       "the NUMERIC token text"]
 
-    pn = prog.one_fn("SymEngine::Parser::parse_numeric")
-    conv = 0
-    for f in reachable(prog, pn):
-        for n in walk(f["body"]):
-            k = n.get("k")
-            idx = None
-            what = None
-            if k == "call" and n.get("n") in BASE_ARG:
-                idx = BASE_ARG[n["n"]]
-                what = n["n"]
-            elif k == "ctor":
-                t = n.get("t", "").replace("const ", "")
-                if t in CTOR_BASE and len(n.get("a", ())) == 2 \
-                        and "basic_string" in (prog.header(n.get("u", ""))
-                                               .get("params", [{}])[0]
-                                               .get("t", "")):
-                    idx = CTOR_BASE[t]
-                    what = short(t) + "(string, base)"
-            if idx is None:
-                continue
-            conv += 1
-            key = "%s@%s:%s" % (what, short(f["qn"]), n.get("l"))
-            args = n.get("a", [])
-            base = lit_value(args[idx]) if len(args) > idx else "10"
-            R.instance("R17.1", key, sample={"call": show(n)[:120],
-                                             "base": base})
-            if base != "10":
-                R.violation(
-                    "R17.1", "%s@%s" % (what, short(f["qn"])),
-                    prog.loc(f, n.get("l")),
-                    "%s converts a numeric literal with base `%s` (not the "
-                    "constant 10): base 0 auto-detects octal/hex, so "
-                    "leading zeros change the value"
-                    % (show(n)[:100], base if base is not None
-                       else show(args[idx])))
-    R.floor("string->integer conversions under parse_numeric", conv, 1)
+    from selib.numlit import literal_rules
+    literal_rules(prog, R, "R17.1", "R17.4")
 
     # ---------------------------------------------------------- R17.2
     fnames = set()
